@@ -296,11 +296,15 @@ class ExponentialCoalescent(Distribution):
         heights_sorted = torch.gather(node_heights, -1, indices)
         node_mask_sorted = torch.gather(node_mask, -1, indices)
         lineage_count = node_mask_sorted.cumsum(-1)[..., :-1]
-        # TODO: deal with growth==0
+        # growth == 0 is the constant population size model (limit of the closed form)
+        no_growth = self.growth == 0.0
+        growth_safe = torch.where(no_growth, torch.ones_like(self.growth), self.growth)
         height_growth_exp = torch.exp(heights_sorted * self.growth)
-        integral = (height_growth_exp[..., 1:] - height_growth_exp[..., :-1]) / (
-            self.theta * self.growth
-        )
+        integral = torch.where(
+            no_growth,
+            heights_sorted[..., 1:] - heights_sorted[..., :-1],
+            (height_growth_exp[..., 1:] - height_growth_exp[..., :-1]) / growth_safe,
+        ) / self.theta
         lchoose2 = lineage_count * (lineage_count - 1) / 2.0
         log_thetas = torch.log(
             self.theta * torch.exp(-heights_sorted * self.growth)
